@@ -272,6 +272,9 @@ def full_cell(P, A):
     ro, ids, addr_id, other_id = rich_state(P, A)
     if P.get('prehist'):
         B.prehist_replace(ro)
+    if P.get('prefail'):
+        from . import history
+        history.failed_attempts(ro, addr=addr_id, level=level)
     pl = plan(P, A, ids)
     rc = B.rc_of(ro)
     if level == 'story':
